@@ -18,7 +18,7 @@ from vcore import tlc as T
 from vcore.tlaval import parse_dot, rat
 from vcore.walk import covering_walks
 
-AN_PROPS = ["InitExactlyOnce", "InitOnlyByTrainingForward", "FirstBatchNormalised", "EvalAndInverseNeverInit", "ReloadKeepsState"]
+AN_PROPS = ["InitExactlyOnce", "InitOnlyByTrainingForward", "FirstBatchNormalised", "EvalAndInverseNeverInit", "ReloadKeepsState", "LoadRestoresCheckpoint"]
 BN_PROPS = ["MomentumRule", "EvalUsesRunning", "TrainUsesBatch", "InverseOnlyInEval"]
 
 BN_BATCHES = [
@@ -136,6 +136,14 @@ class Host:
         (self.box if self.box is not None else self.m).load_state_dict(sd)
 
 
+    def save(self):
+        src = self.box if self.box is not None else self.m
+        self.ckpt = {k: v.clone() for k, v in src.state_dict().items()}
+
+    def load_saved(self):
+        """the checkpoint goes back into the SAME object (through the container in the parent / flow variants)"""
+        (self.box if self.box is not None else self.m).load_state_dict({k: v.clone() for k, v in self.ckpt.items()})
+
     def load_from(self, donor):
         """load_state_dict into the existing object (through the container in the parent variant)."""
         from nflows.transforms.base import CompositeTransform
@@ -184,6 +192,10 @@ def an_walk_task(task):
                 elif name == "SaveLoadFresh":
                     host.save_load_fresh()
                     m = host.m
+                elif name == "Save":
+                    host.save()
+                elif name == "LoadSaved":
+                    host.load_saved()
                 elif name == "Forward":
                     x = B[int(args[0])]
                     # every second call is a gradient-free pass (a warm-up / calibration sweep): the life-cycle
@@ -467,11 +479,11 @@ def main(run, replay=None):
     # ---------------- ActNorm
     res = T.run_tlc("ActNormLife", T.cfg(constants={"NumBatches": 5}, invariants=["TypeOK", "InitializedIffFromBatch"], properties=AN_PROPS), dot=True, name="actnorm")
     run.model_must_hold(res, "ActNormLife")
-    run.add_tlc(res, "ActNormLife", require_actions=["Forward", "Inverse", "SaveLoadFresh", "Train", "Eval"])
+    run.add_tlc(res, "ActNormLife", require_actions=["Forward", "Inverse", "SaveLoadFresh", "Save", "LoadSaved", "Train", "Eval"])
     g = parse_dot(res.dot)
     walks = annotate(g, covering_walks(g, g.init[0]))
     for e in g.edges:
-        if e[2] in ("Forward", "Inverse", "SaveLoadFresh"):
+        if e[2] in ("Forward", "Inverse", "SaveLoadFresh", "LoadSaved"):
             run.nontrivial.add(("AN",) + e)
     tasks = []
     for seed in range(6 if thorough else 2):
